@@ -81,9 +81,13 @@ def cases(tier, seed, args):
             out.append(dict(t='scale', which=['souden_x', 'souden_n', 'wmwf_joint', 'wmwf0'][i % 4], **base(i)))
     if prop == 'C12':
         for i in range(n * 2):
-            out.append(dict(t='gev', use_eig=bool(i % 2), lead=int(i % 3), layout='CF'[(i // 2) % 2], **base(i)))
+            out.append(dict(t='gev', use_eig=bool(i % 2), lead=int(i % 3), layout='CF'[(i // 2) % 2],
+                            dtypes=['cc', 'rc', 'cc', 'cr', 'ic'][(i // 2) % 5], **base(i)))
         for i in range(n * 2):
             out.append(dict(t='pca', scaling=[None, 'trace', 'eigenvalue'][i % 3], lead=int(i % 2), **base(i)))
+        for i in range(n):
+            out.append(dict(t='pca', scaling=[None, 'trace', 'eigenvalue'][i % 3], lead=int(i % 2), structure=['mixed', 'diag', 'mixed', 'rank1axis'][i % 4],
+                            **dict(base(i), D=[2, 2, 3, 4, 2][i % 5])))
         for i in range(n * 2):
             out.append(dict(t='rank1', which=['pca', 'gev'][i % 2], exact=bool(i % 4 < 2),
                             scaling=[None, 'trace', 'eigenvalue'][(i // 2) % 3], layout='CF'[(i // 4) % 2], **base(i)))
@@ -384,6 +388,15 @@ def run_case(case):
         lead = case['lead']
         if case.get('layout') == 'F':
             phix, phin = flay(phix), flay(phin)
+        dtm = case.get('dtypes', 'cc')
+        if dtm == 'rc':          # real symmetric float64 target, complex noise
+            ar = rng.normal(size=(F, D, D))
+            phix = ar @ np.swapaxes(ar, -1, -2) + 0.1 * np.eye(D)
+        elif dtm == 'cr':        # complex target, real symmetric noise
+            phin = np.ascontiguousarray(phin.real) + 1e-3 * np.abs(phin).max() * np.eye(D)
+        elif dtm == 'ic':        # integer-valued target with an integer dtype, complex noise
+            ai = rng.integers(-3, 4, size=(F, D, D))
+            phix = ai @ np.swapaxes(ai, -1, -2) + np.eye(D, dtype=np.int64)
         px, pn = phix, phin
         for _ in range(lead):
             px, pn = px[None], pn[None]
@@ -400,9 +413,25 @@ def run_case(case):
             probes = [cvec(rng, D) for _ in range(3)] + [np.eye(D)[i].astype(complex) for i in range(min(D, 2))] + \
                      [o[f] for o in others]
             its.append(dict(phix=Z(phix[f]), phin=Z(phin[f]), w=[] if w is None else Z(w[f]), probes=[Z(p) for p in probes]))
-        return [dict(kind='gev', items=its, exc=exc, fp=fp + f';use_eig={case["use_eig"]}', key=f'gev:{case["seed"]}')]
+        return [dict(kind='gev', items=its, exc=exc, fp=fp + f';use_eig={case["use_eig"]};dtypes={dtm}', key=f'gev:{case["seed"]}')]
     if t == 'pca':
         phi = pd(rng, F, D, 1e3)
+        st = case.get('structure')
+        if st:
+            # exactly structured PSD matrices: uncorrelated sensors (diagonal, any order of the powers), a multiple of the
+            # identity, an exactly rank-one target whose steering vector has zero entries
+            for f in range(F):
+                kind_f = ['diag', 'ident', 'rank1axis', 'diag'][(f + case['seed']) % 4] if st == 'mixed' else st
+                if kind_f == 'diag':
+                    phi[f] = np.diag(rng.permutation(np.arange(1, D + 1)).astype(float) * 10.0 ** rng.integers(-3, 4))
+                elif kind_f == 'ident':
+                    phi[f] = np.eye(D) * 10.0 ** rng.integers(-3, 4)
+                else:
+                    v = np.zeros(D, complex)
+                    v[rng.integers(D)] = cvec(rng, 1)[0]
+                    if D > 2:
+                        v[rng.integers(D)] = cvec(rng, 1)[0]
+                    phi[f] = np.outer(v, v.conj())
         px = phi
         for _ in range(case['lead']):
             px = px[None]
@@ -411,9 +440,9 @@ def run_case(case):
         if w is not None:
             w = w.reshape(F, D)
         its = [dict(phi=Z(phi[f]), w=[] if w is None else Z(w[f]),
-                    probes=[Z(cvec(rng, D)) for _ in range(3)] + [Z(np.eye(D)[0].astype(complex))]) for f in range(min(F, 6))]
+                    probes=[Z(cvec(rng, D)) for _ in range(3)] + [Z(np.eye(D)[i].astype(complex)) for i in range(D)]) for f in range(min(F, 6))]
         return [dict(kind='pca', scaling=case['scaling'] or 'none', items=its, exc=exc,
-                     fp=fp + f';scaling={case["scaling"]}', key=f'pca:{case["seed"]}')]
+                     fp=fp + f';scaling={case["scaling"]};structure={st}', key=f'pca:{case["seed"]}')]
     if t == 'rank1':
         phin = pd(rng, F, D, 1e2)
         a, sigma, r1true = _rank1(rng, F, D)
@@ -554,7 +583,7 @@ def run_case(case):
             else:
                 v = cvec(rng, D)
                 pn[b] = np.outer(v, v.conj())
-        dt = ['cc', 'cc', 'rc', 'cr'][(case['seed'] // 2) % 4]       # dtypes of (target, noise): complex / real
+        dt = ['cc', 'cc', 'rc', 'cr', 'ss'][(case['seed'] // 2) % 5]       # dtypes of (target, noise): complex / real / single
         if dt[0] == 'r':
             # real-dtype target PSD (real symmetric rank-one target), complex noise PSD
             ar = rng.normal(size=(Fs, D))
@@ -564,13 +593,15 @@ def run_case(case):
                     px[b] = 0
         if dt[1] == 'r':
             pn = np.ascontiguousarray(pn.real) + 0.0
+        if dt == 'ss':           # single-precision complex PSDs (only finiteness is claimed at float32 resolution)
+            px, pn = px.astype(np.complex64), pn.astype(np.complex64)
         call = (lambda P, N: bf.get_mvdr_vector_souden(P, N, ref_channel=0)) if case['fn'] == 'souden' else \
                (lambda P, N: bf.get_wmwf_vector(P, N, reference_channel=0))
         w, exc = _call(call, px, pn)
         recs = [dict(kind='finite', items=[] if w is None else [dict(w=Z(w[f])) for f in range(Fs)], exc=exc,
                      fp=fp + f';{case["fn"]};{case["kind"]};dtypes={dt}', key=f'sing:{case["seed"]}')]
         good = [f for f in range(Fs) if f not in bad]
-        if w is not None and good:
+        if w is not None and good and dt != 'ss':
             alone = np.stack([call(px[f:f + 1], pn[f:f + 1])[0] for f in good])
             recs.append(dict(kind='pair', what='regular_bins_unaffected', exc='',
                              items=[dict(w1=Z(w[f]), w2=Z(alone[i])) for i, f in enumerate(good)][:8],
